@@ -465,6 +465,8 @@ def audit_check(case, obs):
                 for mnid in fget(acks[0], "members"):
                     if mnid not in online:
                         viol.append(("C05", f"{mnid} is listed in MEMBERS of {ch} although none of its connections is alive", t))
+            if errs[:1] == [b"RESPONSE_TOO_LARGE"]:
+                continue      # the listing did not fit the message buffer: no information
             if ch in listed[k]:
                 if not acks or user[k] not in fget(acks[0], "members"):
                     viol.append(("C05", f"{user[k]} lists {ch} in CHANNELS but is not in its MEMBERS ({errs})", t))
